@@ -98,10 +98,13 @@ PARTIAL = {
     'lstsq': 'numpy.linalg.lstsq is a parameter: G is characterised by the normal equations QtQ G = QtP with QtQ '
              'invertible; the residual of the real lstsq result is checked on every correspondence case',
     'disregistry_translation': 'translation/renumbering invariance is proved for displacement, slip vector, differential '
-                               'displacement, p/q vectors, G and the Nye tensor; for disregistry only through '
-                               'disregistry_rigid_full (the profile is the slip whatever the origin): numpy.isclose has a '
-                               'relative tolerance, so plane/column grouping is not translation invariant in general; '
-                               'the invariance of the real function is searched with the oracle',
+                               'displacement, p/q vectors, G and the Nye tensor; for disregistry renumbering invariance is proved '
+                               'without hypothesis (disregistry_renumbered) and translation covariance for a purely absolute '
+                               'tolerance (disregistry_translated_rtol0); with the relative tolerance 1e-5 of numpy.isclose the '
+                               'plane/column grouping is NOT translation invariant in general (counterexample evaluated in '
+                               'Proofs/C17.lean), so for the real tolerance it holds only through disregistry_rigid_full (the '
+                               'profile is the slip whatever the origin); the invariance of the real function is searched with '
+                               'the oracle inside the documented range',
     'sqrt': 'the square root in match_pq is a parameter `mag`; solveG_undeformed assumes mag p > 0 and mag p ^ 2 = |p|^2',
     'stale_reads': 'the real Strain object keeps cached strain/rotation/invariants/Nye when p vectors, theta_max or the system '
                    'change WITHOUT solve_G/clear_properties (by design: solve_G is the documented way to re-solve); the model '
@@ -159,7 +162,10 @@ ASSUMPTIONS = [
     'the exhaustive nearest-image oracle enumerates the lattice inside the radius of C02.search_radius_images; minima not '
     'unique by a relative margin of 1e-7 (exact ties of perfect crystals at half box vectors) are exempt',
 ]
-TRUSTED = ['numpy (lstsq, unique, interp, isclose, dot) in the correspondence run',
+TRUSTED = ['the reduction of the two .pyx files to Python before `ast` reads them (`_decython`: drops cimport lines and bare cdef '
+           'declarations, rewrites `cdef f(<typed args>)` headers and `cdef <type> x = e`; regular expressions on those declarations '
+           'only, every expression / test / loop is read from the ast) and the ast.unparse text behind the statement pins',
+           'numpy (lstsq, unique, interp, isclose, dot) in the correspondence run',
            'atomman.NeighborList (C03) and System.supersize/rotate (C04) as generators of the reference crystals']
 
 
@@ -2422,7 +2428,7 @@ def _strain_sequence(ctx, caseseed, it, tie):
                                 break
                             planned.append(ok_[k_])
                     back_ = {m_: a_ for a_, m_ in _SPROPS}
-                    names = [(back_[m_], m_) for m_ in planned]
+                    names = [(back_[m_], m_) for m_ in dict.fromkeys(planned)]   # a name given twice is one key of the dict
                     note(f'asdict({props!r})')
                     got = _guard(lambda: st.asdict() if props is None else st.asdict(props))
                     ctx.stats.case('sobj:asdict', (caseseed, it, step, repr(props)))
@@ -4840,11 +4846,21 @@ MANIFEST = {
             'the vectors of its current systems and list, whatever it held before. The pairing loop is proved for any number of '
             'competing vectors: no reference vector is paired twice and the winner is the competitor closest to the first-shell '
             'radius, hence G = F^-T also when the current list holds more shells than the reference set. The source of the '
-            'neighbour list (neighbors=, cutoff=, attribute, refusal) is part of the model. The model is tied to the compiled/pure-python code by a differential '
+            'neighbour list (neighbors=, cutoff=, attribute, refusal) is part of the model. displacement(), slip_vector() and '
+            'Strain.asdict() are modelled as whole calls (atom-count and box_reference refusals, default keys, unknown keys) with '
+            'refusal theorems (exactly when), and end-to-end theorems state the clauses at the level of the public entry points '
+            '(SObj.api_homogeneous, DObj.api_differences, slipVectorCall_rigid, displacementCall_is_imposed); disregistry is '
+            'invariant under renumbering (no hypothesis) and translation covariant for rtol = 0. Source tie: translate() regenerates '
+            'from the current sources (ast; the .pyx files after removal of the C declarations) the tensor formulas, the nye_c table and '
+            'the Levi-Civita contraction of nye_tensor.py, the comparison operators and tie rules of match_pq, the slip accumulation, the '
+            'branch chains of displacement() and of the five neighbour blocks, the getter / clear tables and the key lists as Lean '
+            'definitions (Generated/DeformSource.lean), each proved equal to the hand model (34 gen_..._eq_model theorems), plus 16 '
+            'statement pins for sequencing code. The model is also tied to the compiled/pure-python code by a differential '
             'run (exact on dyadic inputs) and the clauses are searched on the real code with an exact oracle.',
     'note': 'Partial: that a small deformation of a perfect crystal satisfies the pairing hypothesis of match_pq, and '
             'that numpy lstsq solves the normal equations, are checked on the implementation, not proved. Trusted: Lean '
             'kernel + propext/Classical.choice/Quot.sound; the correspondence harness; numpy (lstsq, unique, interp, '
             'isclose); NeighborList/supersize/rotate as generators. Floating-point rounding is bounded, not verified.',
-    'technique': 'Lean 4 theorems over a hand-written executable model + differential correspondence + exact oracle search',
+    'technique': 'Lean 4 theorems over an executable model + translator (ast -> generated Lean definitions proved equal to the model, '
+                 'statement pins) + differential correspondence + exact oracle search',
 }
